@@ -453,11 +453,15 @@ def _guard(ctx: Ctx) -> None:
     gw.walk(Env(), func_body(fi))
     hit = None
     for e in gw.exits:
-        if e.kind != "raise" or not e.loops or is_opaque(e.cond):
+        if e.kind != "raise" or not e.loops:
             continue
         # the path must contain an inequality between a to_bin_count value
-        # of an evaluate() result and something else
+        # of an evaluate() result and something else (other conjuncts, e.g.
+        # type tests the analysis cannot normalise, do not matter)
         def has_tbc(c: tuple) -> bool:
+            if c[0] == "opaque":
+                return any(has_tbc(x) for x in c[1:]
+                           if isinstance(x, tuple) and x)
             if c[0] == "not" and c[1][0] == "eq":
                 for p in (c[1][1], c[1][2]):
                     a = p.as_atom()
